@@ -141,3 +141,17 @@ package resource
 //@ func (LabelQueries).Matches
 //@   props C14
 //@   pure
+
+// Identity of what a pointer / kind / reference value denotes.
+//@ fn nsOf(p Kind) string
+//@ fn typeOf(p Kind) string
+//@ fn idOf(p Pointer) string
+//@ iface Kind.Namespace
+//@   pure
+//@   ensures result == nsOf(self)
+//@ iface Kind.Type
+//@   pure
+//@   ensures result == typeOf(self)
+//@ iface Pointer.ID
+//@   pure
+//@   ensures result == idOf(self)
